@@ -594,6 +594,13 @@ Definition request_pause (s : st) (defer : bool) : st * option exn * list obs :=
         else (set_ghost s3 (icause s3) (late_pause s3) true, Some EOther, o1 ++ o2)
     end.
 
+(* _request_pause_coro running INSIDE the plan's task (the 'pause' message; a deferred pause reaching its checkpoint is in the task too, but
+   there a checkpoint is in effect - the explicit checkpoint has just re-created the cache - so [request_pause] is used): with no
+   checkpoint in effect it does not cancel its own task (repair C10-a) - the main loop sees the 'pausing' state on its next turn *)
+Definition request_pause_in_task (s : st) (defer : bool) : st * option exn * list obs :=
+  let '(s1, e, o) := request_pause s defer in
+  ((if resumable s then s1 else set_must_cancel s1 (must_cancel s)), e, o).
+
 (* the part of RunBundler.read after the describe/config caches are filled *)
 Definition finish_read (s : st) (run d : nat) (z : Z) (o : list obs) : st * cres * list obs :=
   match get_bundler s run with
@@ -629,7 +636,7 @@ Definition exec_cmd (s : st) (m : msg) : st * cres * list obs :=
                 end in
       (s1, Done (RVal (VBool (rewindable s1))), [])
   | CPause d =>
-      let '(s1, e, o) := request_pause s d in
+      let '(s1, e, o) := request_pause_in_task s d in
       (s1, Done (match e with Some x => RExn x | None => RVal VNone end), o)
   | COpenRun =>
       if amem (mrun m) (bundlers s) then (s, Done (RExn EIMS), [])
